@@ -56,6 +56,23 @@ class Importance(CellModifierInput):
                 self._particle_importances[particle] = copy.deepcopy(self._tree)
                 self._real_tree[particle] = copy.deepcopy(self._tree)
 
+    def _grab_beginning_comment(self, padding):
+        super()._grab_beginning_comment(padding)
+        # in the data block the trees that get printed are copies of the parsed tree:
+        # the comment goes in front of the first of them
+        if padding and not self.in_cell_block:
+            for trees in (self._real_tree, self._particle_importances):
+                for tree in list(trees.values())[:1]:
+                    tree["start_pad"]._grab_beginning_comment(padding)
+
+    def _delete_trailing_comment(self):
+        super()._delete_trailing_comment()
+        if not self.in_cell_block:
+            for tree in self._real_tree.values():
+                tree._delete_trailing_comment()
+            for tree in self._particle_importances.values():
+                tree._delete_trailing_comment()
+
     def _generate_default_cell_tree(self, particle=None):
         classifier = syntax_node.ClassifierNode()
         classifier.prefix = self._generate_default_node(
